@@ -174,6 +174,34 @@ pub fn scenarios(prop: &str, tier: Tier) -> Vec<Box<dyn Scenario>> {
                 c("mapref_over_withold", vec![Var, MapWithOld(0), RefId(1), Map(2)], vec![3], vec![2], vec![], l),
             ]
         }
+        "C08" => {
+            use Spec::*;
+            let mon = Monitors { c08: true, c01: true, c02: true, ..Monitors::default() };
+            let c = |name: &str, specs: Vec<Spec>, observable: Vec<usize>, ops: Ops, len: usize| -> Box<dyn Scenario> {
+                Box::new(WorldScn(WorldCfg { name: format!("C08/{name}"), specs, late_specs: vec![], observable, pinned: vec![], max_obs: 2, max_subs: 1, observe_at_start: vec![], cut_nodes: vec![], len, ops, mon: mon.clone() }))
+            };
+            let l = if q { 5 } else { 7 };
+            vec![
+                // the five write operations outside stabilise, observed and unobserved variable
+                c("five_writes", vec![Var, Map(0)], vec![1], Ops { write_kinds: true, wkinds_outside: WKINDS.to_vec(), observe: true, drop_obs: true, ..Ops::default() }, l),
+                // node 2 (height 1) writes var 1 while readers of var 1 at heights 1 and 2 run in the same stabilise
+                c(
+                    "write_from_node_two_readers",
+                    vec![Var, Var, Map(0), Map(1), Map2(2, 1), Map(4)],
+                    vec![5, 3],
+                    Ops { write_kinds: true, wkinds_outside: vec![WKind::Set, WKind::Update], arm_nodes: vec![2, 4], arm_vars: vec![1], observe: true, drop_obs: true, drop_var: true, ..Ops::default() },
+                    l,
+                ),
+                // a node writes the variable it reads itself; an update handler writes too
+                c(
+                    "self_feedback_and_handler",
+                    vec![Var, Map(0), Var, Map2(1, 2)],
+                    vec![3, 1],
+                    Ops { write_kinds: true, wkinds_outside: vec![WKind::Set], arm_nodes: vec![1], arm_vars: vec![0, 2], arm_handlers: true, observe: true, subscribe: true, drop_var: true, ..Ops::default() },
+                    l,
+                ),
+            ]
+        }
         "C09" => graph_templates("C09", if q { 6 } else { 7 }, ops_subs(), Monitors { c09: true, ..Monitors::default() }),
         "C10" => {
             use Spec::*;
@@ -284,6 +312,19 @@ pub fn meta(prop: &str, tier: Tier) -> PropMeta {
             assumptions: common_assume,
             rule: "as C01",
             must_cover: vec!["cutoff-suppressed", "cutoff-did-not-suppress", "always-cutoff-after-first-result", "write-same-value-again"],
+        },
+        "C08" => PropMeta {
+            level: "other",
+            functions: {
+                let mut e = engine;
+                e.push("incremental::Var::{set, update, modify, replace, replace_with, get}, var::Var::{set_var_stabilise_end, did_set_var_while_not_stabilising}, State::{stabilise_end (set_during_stabilisation, dead_vars), is_stable}, public::Var::drop");
+                e
+            },
+            bounds: format!("3 templates; histories of {} actions from {{the five write operations outside stabilise, arm a one-shot write (any of the five operations) to be performed by a designated node function or by an update handler during the next stabilise (<=2 per history), drop the harness's Var handle while a write is armed, observe, drop observer, subscribe, stabilise}}, closed by `while !is_stable() {{ stabilise() }}` (<=4 rounds). update/modify/replace_with apply uninterpreted functions to the old value, so composition order is visible in the terms", l(5, 7)),
+            outside: common_outside,
+            assumptions: common_assume,
+            rule: "as C01",
+            must_cover: vec!["write-from-node-function", "write-from-update-handler", "var-handle-dropped-with-write-armed", "deferred-write-on-var-whose-last-handle-was-dropped"],
         },
         "C09" => PropMeta {
             level: "other",
